@@ -129,8 +129,17 @@ func runC10b(t *testing.T, run *mc.Run) int {
 		}
 	}
 	rec()
+	// a release of held events that fails part-way (one of them cannot be encoded), with further events of the
+	// session still in the pipeline: what was written is not written again
+	for _, loginIsLast := range []bool{false, true} {
+		n++
+		if dup, _ := unencodableCell(t, loginIsLast); dup != "" {
+			run.Violation("C10:release-of-held-events-fails-part-way:written-twice", map[string]any{"login_last": loginIsLast},
+				fmt.Sprintf("session with a record stamped in year 33658 among its held events (login last: %v), two more events of the session afterwards: %s", loginIsLast, dup))
+		}
+	}
 	cov := mc.Coverage{Level: "model_checking", States: n, Transitions: n * 6, Traces: n, Evaluations: n, Distinct: both, Exhaustive: true, Samples: samples,
-		Rule:  "the real sshd processor goroutine and the real Auditd.Read sharing one production JSON writer and one unbuffered logins channel (the wiring of cmd/namedpipe.go) in a synctest bubble; every order of {sshd login line, LOGIN record, event} for two sessions (LOGIN before its event); oracle on the writer: every Write is one whole JSON line, none twice, each UserLogin precedes every UserAction with its identity, nothing missing. distinct_nontrivial = orders in which both sessions are open at once",
+		Rule:  "the real sshd processor goroutine and the real Auditd.Read sharing one production JSON writer and one unbuffered logins channel (the wiring of cmd/namedpipe.go) in a synctest bubble; every order of {sshd login line, LOGIN record, event} for two sessions (LOGIN before its event); oracle on the writer: every Write is one whole JSON line, none twice, each UserLogin precedes every UserAction with its identity, nothing missing; plus 2 cells in which the release of held events fails part-way (an event the output cannot encode) and further events of the session follow: nothing is written twice. distinct_nontrivial = orders in which both sessions are open at once",
 		Extra: map[string]any{"orders": n}}
 	return run.Finish(cov)
 }
